@@ -116,9 +116,11 @@ Proof.
 Qed.
 
 Ltac break_step :=
+  unfold bump_local, set_xall;
   repeat match goal with
          | |- context [if ?c then _ else _] => destruct c eqn:?
          | |- context [match lookup_key ?k ?t with _ => _ end] => destruct (lookup_key k t) eqn:?
+         | |- context [match stack ?s with _ => _ end] => destruct (stack s) eqn:?
          end.
 
 Lemma step_syms_app s e : exists T, syms (step s e) = syms s ++ T.
@@ -306,4 +308,209 @@ Proof.
       * exfalso. eapply kinded_excl; eauto.
       * rewrite E2'. reflexivity.
     + simpl in H. apply app_inv_head in H. inversion H.
+Qed.
+
+(* ------------------------------------------------------------------ precedence and visibility at the end *)
+Lemma own_definition_wins_lemma s loc int ln v :
+  kinded (syms s) -> lookup_key (KInternal, int, ln) (syms s) = Some v ->
+  resolve_final s loc int ln = Some v.
+Proof.
+  intros K H. unfold resolve_final.
+  destruct (lookup_key (KLocal, loc, ln) (syms s)) eqn:E.
+  - exfalso. eapply kinded_excl; eauto.
+  - rewrite H. reflexivity.
+Qed.
+
+Lemma private_not_visible_lemma s loc int ln :
+  lookup_key (KLocal, loc, ln) (syms s) = None ->
+  lookup_key (KInternal, int, ln) (syms s) = None ->
+  lookup_ext ln (exts s) = None ->
+  resolve_final s loc int ln = None.
+Proof. intros A B D. unfold resolve_final. rewrite A, B, D. reflexivity. Qed.
+
+(* the extern mapping always points to an own-file key of the same folded name *)
+Definition exts_shaped (X : list (string * key)) : Prop :=
+  forall n k, In (n, k) X -> exists i, k = (KInternal, i, n).
+
+Lemma exts_shaped_declare i s n : exts_shaped (exts s) -> exts_shaped (exts (declare i s n)).
+Proof.
+  intros H. unfold declare. destruct (lookup_ext (lower n) (exts s)); simpl; auto.
+  intros m k I. apply in_app_or in I. destruct I as [I|[I|[]]]; auto.
+  inversion I; subst. eexists; reflexivity.
+Qed.
+
+Lemma exts_shaped_fold i ns : forall s, exts_shaped (exts s) -> exts_shaped (exts (fold_left (declare i) ns s)).
+Proof. induction ns; simpl; intros s H; auto. apply IHns. apply exts_shaped_declare. exact H. Qed.
+
+Lemma exts_shaped_step s e : exts_shaped (exts s) -> exts_shaped (exts (step s e)).
+Proof.
+  intros H. unfold step. destruct e; break_step; simpl; auto;
+    repeat first [apply exts_shaped_declare | apply exts_shaped_fold]; simpl; auto.
+Qed.
+
+Lemma exts_shaped_walk tr : forall s, exts_shaped (exts s) -> exts_shaped (exts (fold_left step tr s)).
+Proof. induction tr; simpl; intros s H; auto. apply IHtr. apply exts_shaped_step. exact H. Qed.
+
+Lemma lookup_ext_shaped X ln k : exts_shaped X -> lookup_ext ln X = Some k -> exists i, k = (KInternal, i, ln).
+Proof.
+  unfold lookup_ext. intros S H. destruct (find (fun p => String.eqb (fst p) ln) X) as [[m k']|] eqn:E; [|discriminate].
+  inversion H; subst. apply find_some in E. destruct E as [I Q]. simpl in Q. apply String.eqb_eq in Q. subst.
+  apply (S _ _ I).
+Qed.
+
+(* a numeric name resolves under the use site's own local prefix only *)
+Lemma local_binding_lemma s loc int ln v :
+  kinded (syms s) -> exts_shaped (exts s) -> is_local ln = true -> resolve_final s loc int ln = Some v ->
+  exists en, In en (syms s) /\ e_key en = (KLocal, loc, ln) /\ e_val en = v.
+Proof.
+  intros K XS L H. unfold resolve_final in H.
+  destruct (lookup_key (KLocal, loc, ln) (syms s)) eqn:E1.
+  - inversion H; subst. apply lookup_key_in. exact E1.
+  - exfalso.
+    assert (X : forall i w, lookup_key (KInternal, i, ln) (syms s) = Some w -> False).
+    { intros i w Hk. apply lookup_key_in in Hk. destruct Hk as (en & I & Ek & _).
+      pose proof (K _ I) as Y. rewrite Ek in Y. congruence. }
+    destruct (lookup_key (KInternal, int, ln) (syms s)) eqn:E2.
+    + eapply X; eauto.
+    + destruct (lookup_ext ln (exts s)) as [k|] eqn:E3; [|discriminate].
+      destruct (lookup_ext_shaped _ _ _ XS E3) as [i ->]. eapply X; eauto.
+Qed.
+
+(* ------------------------------------------------------------------ local prefixes identify scopes *)
+Lemma stack_declare i s n : stack (declare i s n) = stack s /\ next_loc (declare i s n) = next_loc s
+                            /\ next_int (declare i s n) = next_int s /\ isl (declare i s n) = isl s
+                            /\ outs (declare i s n) = outs s.
+Proof. unfold declare. destruct (lookup_ext (lower n) (exts s)); simpl; auto. Qed.
+
+Lemma stack_fold_declare i ns : forall s,
+  stack (fold_left (declare i) ns s) = stack s /\ next_loc (fold_left (declare i) ns s) = next_loc s
+  /\ next_int (fold_left (declare i) ns s) = next_int s /\ isl (fold_left (declare i) ns s) = isl s
+  /\ outs (fold_left (declare i) ns s) = outs s.
+Proof.
+  induction ns; simpl; intros s; auto.
+  destruct (IHns (declare i s a)) as (A & B & D & E & F). destruct (stack_declare i s a) as (A' & B' & D' & E' & F').
+  rewrite A, B, D, E, F. auto.
+Qed.
+
+Lemma map_tl {A B} (f : A -> B) l : map f (tl l) = tl (map f l).
+Proof. destruct l; reflexivity. Qed.
+
+Ltac simp_declare :=
+  repeat match goal with
+         | |- context [stack (declare ?i ?s ?n)] => rewrite (proj1 (stack_declare i s n))
+         | |- context [next_loc (declare ?i ?s ?n)] => rewrite (proj1 (proj2 (stack_declare i s n)))
+         | |- context [next_int (declare ?i ?s ?n)] => rewrite (proj1 (proj2 (proj2 (stack_declare i s n))))
+         | |- context [stack (fold_left (declare ?i) ?l ?s)] => rewrite (proj1 (stack_fold_declare i l s))
+         | |- context [next_loc (fold_left (declare ?i) ?l ?s)] => rewrite (proj1 (proj2 (stack_fold_declare i l s)))
+         | |- context [next_int (fold_left (declare ?i) ?l ?s)] => rewrite (proj1 (proj2 (proj2 (stack_fold_declare i l s))))
+         | _ => progress simpl
+         end.
+
+Definition locs (s : st) : list N := map f_loc (stack s).
+
+Lemma step_locs s e :
+  (locs (step s e) = locs s /\ next_loc (step s e) = next_loc s) \/
+  (locs (step s e) = next_loc s :: locs s /\ next_loc (step s e) = (next_loc s + 1)%N) \/
+  (locs (step s e) = tl (locs s) /\ next_loc (step s e) = next_loc s) \/
+  (locs (step s e) = next_loc s :: tl (locs s) /\ next_loc (step s e) = (next_loc s + 1)%N /\
+   f_isfile (topf s) = true /\ exists n x v, e = ELabel n x v).
+Proof.
+  unfold locs, step. destruct e; break_step; unfold bump_local, set_xall, topf; simp_declare;
+    try (destruct (stack s) eqn:?; simp_declare); rewrite ?map_tl; auto;
+    try (right; right; right; repeat split; auto;
+         [match goal with H : negb _ = false |- _ => apply negb_false_iff in H; exact H end | eauto]).
+Qed.
+
+Definition inv (s : st) : Prop :=
+  NoDup (locs s) /\ Forall (fun p => (p < next_loc s)%N) (locs s).
+
+Lemma inv_init : inv init.
+Proof. split; constructor. Qed.
+
+Lemma Forall_tl {A} (P : A -> Prop) l : Forall P l -> Forall P (tl l).
+Proof. destruct l; simpl; auto. intros H; inversion H; auto. Qed.
+
+Lemma NoDup_tl {A} (l : list A) : NoDup l -> NoDup (tl l).
+Proof. destruct l; simpl; auto. intros H; inversion H; auto. Qed.
+
+Lemma inv_step s e : inv s -> inv (step s e).
+Proof.
+  intros [ND FA]. unfold inv.
+  assert (FA' : Forall (fun p => (p < next_loc s + 1)%N) (locs s)).
+  { eapply Forall_impl; [|exact FA]. intros; simpl in *; lia. }
+  assert (NI : ~ In (next_loc s) (locs s)).
+  { intros I. rewrite Forall_forall in FA. specialize (FA _ I). lia. }
+  destruct (step_locs s e) as [[A B]|[[A B]|[[A B]|(A & B & _)]]]; rewrite A, B.
+  - auto.
+  - split; constructor; auto. lia.
+  - split; [apply NoDup_tl|apply Forall_tl]; auto.
+  - split; constructor.
+    + intros I. apply NI. destruct (locs s); simpl in *; auto.
+    + apply NoDup_tl; auto.
+    + lia.
+    + apply Forall_tl; auto.
+Qed.
+
+Lemma inv_walk tr : forall s, inv s -> inv (fold_left step tr s).
+Proof. induction tr; simpl; intros s H; auto. apply IHtr. apply inv_step. exact H. Qed.
+
+(* a local prefix that is no longer the prefix of any open block *)
+Definition dead (p : N) (s : st) : Prop := (p < next_loc s)%N /\ ~ In p (locs s).
+
+Lemma dead_step p s e : dead p s -> dead p (step s e).
+Proof.
+  intros [L NI]. unfold dead.
+  destruct (step_locs s e) as [[A B]|[[A B]|[[A B]|(A & B & _)]]]; rewrite A, B.
+  - auto.
+  - split; [lia|]. intros [I|I]; [lia|auto].
+  - split; auto. intros I. apply NI. destruct (locs s); simpl in *; auto.
+  - split; [lia|]. intros [I|I]; [lia|]. apply NI. destruct (locs s); simpl in *; auto.
+Qed.
+
+Lemma lookup_key_app_other k T en : e_key en <> k -> lookup_key k (T ++ [en]) = lookup_key k T.
+Proof.
+  intros NE. unfold lookup_key. induction T as [|a r IH]; simpl.
+  - destruct (key_eqb (e_key en) k) eqn:E; auto. apply key_eqb_eq in E. contradiction.
+  - destruct (key_eqb (e_key a) k); auto.
+Qed.
+
+Lemma topf_in_locs s : f_isfile (topf s) = true -> In (f_loc (topf s)) (locs s).
+Proof.
+  unfold topf, locs. destruct (stack s); simpl; [discriminate|auto].
+Qed.
+
+Lemma dead_no_def p s e ln : dead p s ->
+  lookup_key (KLocal, p, ln) (syms (step s e)) = lookup_key (KLocal, p, ln) (syms s).
+Proof.
+  intros [_ NI]. destruct (step_syms_shape s e) as [H|(en & H & _ & A)]; rewrite H; auto.
+  apply lookup_key_app_other. intros E.
+  destruct e; try contradiction; destruct A as (A & _ & F); rewrite A in E; unfold mkkey in E; inversion E.
+  subst p. apply NI. apply topf_in_locs. exact F.
+Qed.
+
+Lemma dead_walk p tr : forall s, dead p s ->
+  dead p (fold_left step tr s) /\
+  forall ln, lookup_key (KLocal, p, ln) (syms (fold_left step tr s)) = lookup_key (KLocal, p, ln) (syms s).
+Proof.
+  induction tr as [|e r IH]; simpl; intros s D; auto.
+  destruct (IH (step s e) (dead_step _ _ e D)) as [A B]. split; auto.
+  intros ln. rewrite B. apply dead_no_def. exact D.
+Qed.
+
+(* an ordinary label ends the local scope it is met in; so does the end of a block or file *)
+Lemma label_ends_scope s n x v :
+  inv s -> f_isfile (topf s) = true -> dead (f_loc (topf s)) (step s (ELabel n x v)).
+Proof.
+  intros [ND FA] F. pose proof (topf_in_locs s F) as I.
+  destruct (step_locs s (ELabel n x v)) as [[A B]|[[A B]|[[A B]|(A & B & _)]]].
+  - exfalso. revert A. unfold locs, step. rewrite F. simpl.
+    destruct (lookup_key (mkkey KInternal (f_int (topf s)) n) (syms s)); unfold bump_local; break_step; simp_declare;
+      rewrite map_tl; intros A; fold (locs s) in A;
+      (assert (X : In (next_loc s) (locs s)) by (rewrite <- A; left; reflexivity));
+      rewrite Forall_forall in FA; specialize (FA _ X); lia.
+  - exfalso. destruct B as [B [[Q|Q]|Q]]; discriminate.
+  - exfalso. destruct B as [B [Q|Q]]; discriminate.
+  - unfold dead. rewrite A, B. rewrite Forall_forall in FA. pose proof (FA _ I). split; [lia|].
+    intros [Q|Q]; [lia|]. unfold topf, locs in *. destruct (stack s); simpl in *; [discriminate|].
+    inversion ND; subst. contradiction.
 Qed.
